@@ -11,7 +11,7 @@ from common import R, Ro, fl
 
 from common import wiring_pre_build as pre_build  # noqa: E402,F401
 
-LEAN_MODULES = ["PyomaVerif.Props.C16", "PyomaVerif.Props.C16Extract", "PyomaVerif.Mutants.C16", "PyomaVerif.Props.WiringMpe"]
+LEAN_MODULES = ["PyomaVerif.Props.C16", "PyomaVerif.Props.C16Extract", "PyomaVerif.Mutants.C16", "PyomaVerif.Mutants.C16Extract", "PyomaVerif.Props.WiringMpe"]
 THEOREMS = [
     # call-site wiring of the class layer, regenerated from /repo on every run (translate_wiring.py)
     "PV.WiringMpe.C16_handover_wiring",
@@ -38,6 +38,7 @@ THEOREMS = [
     "PV.C16.Mut.pop_one_list_breaks_refine",
     "PV.C16.Mut.last_nearest_breaks_refine",
     "PV.C16.Mut.no_shift_gate_breaks_refine",
+    "PV.C16.Mut.prefix_sort_extracts_nothing",
 ]
 RULE = (
     "correspondence: a SelFromPlot instance built with object.__new__ (attributes as __init__ sets them, Agg figure) "
